@@ -261,6 +261,21 @@ def run_manifest(w, acc, name, periods, ppk, mode, q, now, total):
                     bad(f'sequence|{kind}', f'{p.id}/{rep.id} $Number$={n} carries sequence {frag.mfhd["sequence_number"]}', rep=rep.id)
                 count += 1
                 k += 1
+            # requests by time: beyond the end of the source media (vod; the Period can not be longer than what is left
+            # of the source after its offset)
+            if mode == 'vod':
+                left = tot - src          # seconds of source after the Period's offset
+                ext = {'video': 'm4v', 'audio': 'm4a'}.get(kind, 'mp4')
+                for beyond_s in (left + Fraction(d, ts), left + 10 * Fraction(d, ts), Fraction(2 ** 32, ts)):
+                    tb = int(beyond_s * ts) + 1
+                    tr = w.get(f'/mps/{mode}/{name}/{pk}/{rep.id}/time/{tb}.{ext}')
+                    acc.count('evaluations')
+                    acc.count('transitions')
+                    if tr.status == 200:
+                        bad(f'beyond-source-served-by-time|{kind}', f'{p.id}/{rep.id} $Time$={tb} ({float(beyond_s):.2f} s into the Period, '
+                            f'the source has {float(left):.2f} s left after the Period offset) answered 200', rep=rep.id)
+                    elif tr.status >= 500:
+                        bad(f'beyond-source-5xx|{kind}', f'{p.id}/{rep.id} $Time$={tb} answered {tr.status} {W.crash_signature(tr.exc)}', rep=rep.id)
             # past the end of the source
             nend = sn + (len(f['segs']) - min(cand0)) + 1
             er = w.get(mpd.split_url(rep.media_url(number=nend + 1)))
